@@ -442,7 +442,7 @@ func (d *c17d_bn254) shplonkFamily() {
 	cs := c17Case[c17Shp_bn254]{
 		fn: "shplonk.BatchVerify",
 		verify: func(p *c17Shp_bn254) error {
-			return shplonk.BatchVerify(p.proof, p.digests, p.points, sha256.New(), p.vk, p.data...)
+			return shplonk.BatchVerify(p.proof, p.digests, p.points, c17UsedHash(), p.vk, p.data...)
 		},
 		args:  func(p *c17Shp_bn254) []any { return []any{&p.proof, &p.digests, &p.points, &p.data, &p.vk} },
 		extra: d.shpStatement,
@@ -483,7 +483,7 @@ func (d *c17d_bn254) shplonkFamily() {
 		return c
 	}
 	prove := func(c *c17Shp_bn254) bool {
-		pr, err := shplonk.BatchOpen(c.polys, c.digests, c.points, sha256.New(), d.srs.Pk, c.data...)
+		pr, err := shplonk.BatchOpen(c.polys, c.digests, c.points, c17UsedHash(), d.srs.Pk, c.data...)
 		e := d.shpStatement(c)
 		e["fn"] = "shplonk.BatchOpen"
 		if err != nil {
@@ -502,7 +502,7 @@ func (d *c17d_bn254) shplonkFamily() {
 		if !prove(a) {
 			continue
 		}
-		pb, err := shplonk.BatchOpen(b.polys, b.digests, b.points, sha256.New(), d.srs.Pk, b.data...)
+		pb, err := shplonk.BatchOpen(b.polys, b.digests, b.points, c17UsedHash(), d.srs.Pk, b.data...)
 		if err != nil {
 			continue
 		}
@@ -668,7 +668,7 @@ func (d *c17d_bn254) fflonkPart(tr *c17Trace) {
 	cs := c17Case[c17Ffl_bn254]{
 		fn: "fflonk.BatchVerify",
 		verify: func(p *c17Ffl_bn254) error {
-			return fflonk.BatchVerify(p.proof, p.digests, p.points, sha256.New(), p.vk, p.data...)
+			return fflonk.BatchVerify(p.proof, p.digests, p.points, c17UsedHash(), p.vk, p.data...)
 		},
 		args:  func(p *c17Ffl_bn254) []any { return []any{&p.proof, &p.digests, &p.points, &p.data, &p.vk} },
 		extra: d.fflStatement,
@@ -708,7 +708,7 @@ func (d *c17d_bn254) fflonkPart(tr *c17Trace) {
 		return c
 	}
 	prove := func(c *c17Ffl_bn254) bool {
-		pr, err := fflonk.BatchOpen(c.packs, c.digests, c.points, sha256.New(), d.srs.Pk, c.data...)
+		pr, err := fflonk.BatchOpen(c.packs, c.digests, c.points, c17UsedHash(), d.srs.Pk, c.data...)
 		if err != nil {
 			e := d.fflStatement(c)
 			e["fn"], e["err"] = "fflonk.BatchOpen", c17msg(err)
@@ -727,7 +727,7 @@ func (d *c17d_bn254) fflonkPart(tr *c17Trace) {
 		if !prove(a) {
 			continue
 		}
-		if pb, err := fflonk.BatchOpen(b.packs, b.digests, b.points, sha256.New(), d.srs.Pk, b.data...); err == nil {
+		if pb, err := fflonk.BatchOpen(b.packs, b.digests, b.points, c17UsedHash(), d.srs.Pk, b.data...); err == nil {
 			b.proof = pb
 		} else {
 			b = nil
